@@ -189,10 +189,17 @@ def np_like(interp, name, args, kw, st, node):
 
 @reg("numpy.eye", "numpy.identity")
 def np_eye(interp, name, args, kw, st, node):
-    d = dim_of(args[0]) if args else None
+    b = bind(["N", "M", "k", "dtype"] if name.endswith("eye") else ["n", "dtype"], args, kw)
+    nv = b.get("N") or b.get("n")
+    rest = {k: v for k, v in b.items() if k in ("M", "k") and v is not None and v.kind != "none" and not (k == "k" and v.has_const and v.const == 0)}
+    if nv is None or rest:
+        return fresh_arr(callterm(name, args, kw), None, _L(*args, *kw.values()))
+    for k_ in ("N", "n", "M", "k", "dtype"):
+        kw.pop(k_, None)
+    d = dim_of(nv)
     if d is None:
-        return fresh_arr(T("eye", args[0].term), (Dim.unknown("eye"),) * 2, _L(*args))
-    return fresh_arr(T("eye", A.dim_term(d)), (d, d), _L(*args))
+        return fresh_arr(T("eye", nv.term), (Dim.unknown("eye"),) * 2, _L(nv))
+    return fresh_arr(T("eye", A.dim_term(d)), (d, d), _L(nv))
 
 
 @reg("numpy.arange")
@@ -994,6 +1001,17 @@ def np_argwhere(interp, name, args, kw, st, node):
     # the rank of the mask is part of the term: np.concatenate(np.argwhere(m)) of a 1-D mask is np.flatnonzero(m)
     t = T("argwhere", x.term, ("rank", const(len(sh)))) if sh is not None else T("argwhere", x.term)
     return fresh_arr(t, (Dim.unknown("argwhere"), Dim(len(sh)) if sh is not None else Dim.unknown("r")), x.labels, "int")
+
+
+@reg("numpy.vdot")
+def np_vdot(interp, name, args, kw, st, node):
+    """np.vdot(a, b) flattens both operands: for real arrays of one shape the sum of the elementwise products"""
+    a, b = arrv(args[0]), arrv(args[1])
+    sa_, sb_ = shape(a), shape(b)
+    if sa_ is None or sb_ is None or len(sa_) != len(sb_) or any(A.dims_conflict(interp, x, y) for x, y in zip(sa_, sb_)):
+        return fresh_arr(callterm(name, args, kw), (), _L(*args))
+    prod = A.binop(interp, "mul", a, b, st, node)
+    return call_external(interp, "numpy.sum", [prod], {}, st, node)
 
 
 @reg("numpy.copyto")
@@ -2618,10 +2636,11 @@ def np_einsum(interp, name, args, kw, st, node):
                 cur, ci = np_trace(interp, "numpy.trace", [mm(cur, tr(b))], {}, st, node), ""
             elif len(ci) == 2 and len(gone) == 1:
                 # sum_j A_ij B_ij = diag(A B^T)_i ; sum_i A_ij B_ij = diag(A^T B)_j
+                # (written as a sum of elementwise products: the reductions know how to go inside merged pair axes)
                 if gone[0] == ci[1]:
-                    cur, ci = np_diag(interp, "numpy.diagonal", [mm(cur, tr(b))], {}, st, node), ci[0]
+                    cur, ci = call_external(interp, "numpy.sum", [had(cur, b)], {"axis": vconst(1)}, st, node), ci[0]
                 else:
-                    cur, ci = np_diag(interp, "numpy.diagonal", [mm(tr(cur), b)], {}, st, node), ci[1]
+                    cur, ci = call_external(interp, "numpy.sum", [had(cur, b)], {"axis": vconst(0)}, st, node), ci[1]
             elif len(ci) == 1 and len(gone) == 1:
                 cur, ci = mm(cur, b), ""
             else:
